@@ -456,8 +456,11 @@ class Frag:
                 env, pre = self.add_call(env, g)
                 return pre + k(env, Val(ok, "Z"))
             if name == "loop_write" and not call.args and not call.keywords:
+                ok = self.consts.lookup(ast.Name(id="MQTT_ERR_SUCCESS"))
+                if ok is None:
+                    raise Untranslatable("MQTT_ERR_SUCCESS not found")
                 env, pre = self.add_call(env, "GLoopWrite")
-                return pre + k(env, None)
+                return pre + k(env, Val(ok, "Z"))
             if name == "_handle_on_message" and len(call.args) == 1 and not call.keywords \
                     and isinstance(call.args[0], ast.Name):
                 v = env.get(call.args[0].id)
